@@ -139,7 +139,18 @@ menu! {
     "seq(dict(u8,u8))" => Vec<HashMap<u8, u8>>, "bdict(i64,u64)" => BTreeMap<i64, u64>,
 }
 
+fn show_diag(x: &crate::definition_types::Diagnostic) -> String {
+    format!("X {} {} {}", x.level as u8, hex(x.message.as_bytes()), match &x.source { Some(s) => hex(s.as_bytes()), None => "none".into() })
+}
 pub fn handle(toks: &[&str]) -> String {
+    if toks.first() == Some(&"dec") {
+        crate::MAX_ALLOC.store(0, std::sync::atomic::Ordering::Relaxed);
+        let r = handle_inner(toks);
+        return format!("{} ~{}", r, crate::MAX_ALLOC.load(std::sync::atomic::Ordering::Relaxed));
+    }
+    handle_inner(toks)
+}
+fn handle_inner(toks: &[&str]) -> String {
     match toks {
         ["menu"] => TYPE_MENU.join(" "),
         ["enc", "varuint", "n", v] => { let x: u64 = v.parse().unwrap(); enc_with(|e| e.encode_varuint(x), |e| e.encode_varuint(x)) }
@@ -159,6 +170,25 @@ pub fn handle(toks: &[&str]) -> String {
                 "varuint32" => match d.decode_varuint::<u32>() { Ok(x) => format!("ok n {} | {}", x, d.remaining()), Err(e) => render_err(&e) },
                 "f32" => match d.decode::<f32>() { Ok(x) => format!("ok n {} | {}", x.to_bits(), d.remaining()), Err(e) => render_err(&e) },
                 "f64" => match d.decode::<f64>() { Ok(x) => format!("ok n {} | {}", x.to_bits(), d.remaining()), Err(e) => render_err(&e) },
+                "genfile" => match d.decode::<crate::definition_types::GeneratedFile>() {
+                    Ok(f) => format!("ok G {} {} | {}", hex(f.path.as_bytes()), hex(f.contents.as_bytes()), d.remaining()), Err(e) => render_err(&e) },
+                "glevel" => match d.decode::<crate::definition_types::DiagnosticLevel>() {
+                    Ok(l) => format!("ok n {} | {}", l as u8, d.remaining()), Err(e) => render_err(&e) },
+                "gdiag" => match d.decode::<crate::definition_types::Diagnostic>() {
+                    Ok(x) => format!("ok {} | {}", show_diag(&x), d.remaining()), Err(e) => render_err(&e) },
+                "reply" => {
+                    // as main.rs::handle_generator_response reads it
+                    let r1: slice_codec::Result<Vec<crate::definition_types::GeneratedFile>> = d.decode();
+                    match r1 {
+                        Err(e) => render_err(&e),
+                        Ok(fs) => match d.decode::<Vec<crate::definition_types::Diagnostic>>() {
+                            Err(e) => render_err(&e),
+                            Ok(ds) => format!("ok {} ; {} | {}",
+                                fs.iter().map(|f| format!("G {} {}", hex(f.path.as_bytes()), hex(f.contents.as_bytes()))).collect::<Vec<_>>().join(" "),
+                                ds.iter().map(show_diag).collect::<Vec<_>>().join(" "), d.remaining()),
+                        },
+                    }
+                }
                 "skiptags" => match d.skip_tagged_fields() { Ok(()) => format!("ok u | {}", d.remaining()), Err(e) => render_err(&e) },
                 _ => dec_menu(t, &bytes).unwrap_or_else(|| "?".into()),
             }
